@@ -104,6 +104,7 @@ class CtxRecorder:
         self.C = concepts_mod
         self.b = 0
         self._kind = 0
+        self.counts = {}
 
     def arg(self, items):
         """The argument as one of several kinds of iterable (the API documents Iterable[str]): list, tuple,
@@ -147,11 +148,13 @@ class CtxRecorder:
                 cand = self.C.Context(self.olabels, self.plabels, cells)
                 if [tuple(bool(x) for x in r) for r in cand.bools] == [tuple(r) for r in bools]:
                     self.ctx = cand
+                    self.counts['int_cell_contexts'] = self.counts.get('int_cell_contexts', 0) + 1
             except Exception:
                 self.ctx = None
         if self.ctx is None and kind == 2:
             # names and rows as one-shot iterators (documented: Iterable[str], Iterable of tuples)
             self.ctx = self.C.Context(iter(self.olabels), (x for x in self.plabels), iter(bools))
+            self.counts['iterator_built_contexts'] = self.counts.get('iterator_built_contexts', 0) + 1
         if self.ctx is None:
             self.ctx = self.C.Context(self.olabels, self.plabels, bools)
         self._members = None
@@ -855,6 +858,7 @@ def drive_orphans(rec, table, b, families, rng, keep=False):
     if not isinstance(rec.ctx, OrphanShim) and getattr(ms[0], 'lattice', None) is not rec.ctx.lattice:
         return          # this version does not expose Concept.lattice: lattice-level calls cannot be made from a member
     rec.b = b
+    rec.counts['orphan_scenarios'] = rec.counts.get('orphan_scenarios', 0) + 1
     rec.ev('ctx.new', n=table.n, m=table.m, rows=table.rows, tag=table.tag + ':orphaned-concepts')
     if not isinstance(rec.ctx, OrphanShim):
         rec.ctx = OrphanShim(ms)
